@@ -130,7 +130,11 @@ package db
 //@ func DatabaseCollectionWithUser.updateAndReturnDoc
 //@   props C07 C11 C14
 //@   modifies *
-//@   only-contracts releaseSequence, sequences, IsTimeoutError
+//@   only-contracts releaseSequence, sequences, IsTimeoutError, macroExpandSpec
+// (C09) the gateway's own document write asks the server to expand _sync.cas to the cas of this very mutation
+// (the premise of lemma committed_write_is_own_write in db/zz_verif_c09.go)
+//@   also C09: expands-sync-cas
+//@   before[expands-sync-cas]    call WriteUpdateWithXattrs#1 $6 != nil && expandsSyncCas($6.MacroExpansion, 0)
 // (C14) an attachment key is deleted as obsolete only if it is not in the post-write leaf set, and that set
 // is the one getAttachmentIDsForLeafRevisions computed after the write without error
 //@   before[not-referenced]      call Delete#1 !($2 in leafAttachments)
